@@ -8,7 +8,8 @@ import (
 )
 
 var (
-	ErrPKCS5UnPadding = errors.New("PKCS5UnPadding error")
+	ErrPKCS5UnPadding  = errors.New("PKCS5UnPadding error")
+	ErrAesCipherLength = errors.New("AES cipher text is not a multiple of the block size")
 )
 
 func PKCS5Padding(cipherText []byte, blockSize int) []byte {
@@ -55,6 +56,10 @@ func AesDecrypt(encResult, key []byte) ([]byte, error) {
 		return nil, err
 	}
 	blockSize := block.BlockSize()
+	// CryptBlocks panics on input that is not made of full blocks
+	if len(encResult)%blockSize != 0 {
+		return nil, ErrAesCipherLength
+	}
 	blockMode := cipher.NewCBCDecrypter(block, key[:blockSize])
 	origData := make([]byte, len(encResult))
 	blockMode.CryptBlocks(origData, encResult)
